@@ -36,7 +36,7 @@ print(' '.join(c.split(':')[0] for c in cs))")
   git -C /repo worktree remove --force $WT; rm -rf $ROOT/out_$NAME
 }
 export -f run_one
-ls /verif/seeded | grep -E "${PAT:-.}" | xargs -P $JOBS -I{} bash -c "run_one {} $ROOT" | tee $ROOT/summary.txt
+ls /verif/seeded | grep -v "\.txt$" | grep -E "${PAT:-.}" | xargs -P $JOBS -I{} bash -c "run_one {} $ROOT" | tee $ROOT/summary.txt
 M=$(grep -c "^MISSED\|^ERROR" $ROOT/summary.txt); C=$(grep -c "^CAUGHT" $ROOT/summary.txt)
 cp $ROOT/summary.txt /verif/seeded/CORPUS_LAST_RUN.txt
 rm -rf $ROOT; git -C /repo worktree prune
